@@ -27,8 +27,14 @@ def subst_terms(tier):
     return [("subst", t, v) for t, v in subst_cases(tier, for_generation=True)]
 
 
+_TERMS = {}
+
+
 def terms_for(tier):
-    return list(universe(tier)) + subst_terms(tier)
+    # computed once in the parent before the pool forks, inherited by every worker
+    if tier not in _TERMS:
+        _TERMS[tier] = list(universe(tier)) + subst_terms(tier)
+    return _TERMS[tier]
 
 
 def eligible(t):
@@ -137,6 +143,7 @@ def worker(shard, nshards, tier, seed):
 
 
 def run(tier, seed):
+    terms_for(tier)
     acc = parallel(worker, tier, seed, nshards=128)
     b = BOUNDS[tier]
     cov = {
